@@ -23,7 +23,7 @@ RemoveFabric: from the success edge of Fabrics::remove every path reaches Fabric
 only the load I/O error propagates.
 """
 CLAUSES = ['a: key layout', 'b: store/load/remove agreement per key', 'c: start-up and factory-reset handle the same components', 'd: storage errors never dropped; removal persisted before acknowledging',
-           'e: soft-fail load of the optional cache']
+           'e: soft-fail load of the optional cache', 'f: every cluster handler that mutates a fabric persists it']
 NOT_DECIDED = ['round-trip equality of each persisted structure', 'behaviour at each crash prefix of a multi-write history', 'atomicity of the example file-backed store']
 MIN_OBLIGATIONS = {'q': 60, 'd': 45, 'r': 45}
 
@@ -208,3 +208,49 @@ def check(R):
             ld_ = lp.calls(KV + 'load')
             R.floor('load in ResumableSessions::load_persist', len(ld_), 1)
             result_used(R, 'P8', lp, (KV + 'load',))
+
+    # ---- f --------------------------------------------------------------------
+    with R.clause('f'):
+        fabric_mutators_persist(R)
+
+
+def fabric_mutators_persist(R):
+    """A change confirmed to a peer survives a restart only if the handler that made it wrote the fabric record: every data-model
+    cluster handler (a `ClusterHandler` trait method of dm::clusters::*) from which a mutating method of Fabric / Fabrics is reachable
+    (within the handler's own module) also reaches FabricPersist::store or ::remove.  Exceptions are named with their reason."""
+    F = R.facts
+    MUT = set()
+    for b in F.bodies.values():
+        if b.fn.startswith(('fabric::Fabric::', 'fabric::Fabrics::')) and '::{' not in b.fn and b.argc >= 1 and b.local_ty(1) in ('&mut fabric::Fabric', '&mut fabric::Fabrics'):
+            MUT.add(b.fn)
+    # not mutations of a persisted record by themselves: loading / wiping the whole table
+    MUT -= {'fabric::Fabrics::load_persist', 'fabric::Fabrics::reset', 'fabric::Fabrics::reset_persist', 'fabric::Fabrics::add_load'}
+    R.floor('mutating methods of Fabric / Fabrics', len(MUT), 12)
+    EXC = {
+        'handle_add_noc': 'AddNOC stages the fabric under the fail-safe: CommissioningComplete persists it, expiry rolls it back (C08)',
+        'handle_update_noc': 'UpdateNOC stages the change under the fail-safe: CommissioningComplete persists it, expiry reloads the stored record (C08)',
+        'handle_arm_fail_safe': 'ArmFailSafe(0) / expiry rolls staged changes back; FailSafe::expire does its own persistence (C07 / C08)',
+        'handle_commissioning_complete': 'persists through FabricPersist::store (counted as reaching it)',
+    }
+    STORE = ('fabric::FabricPersist::store', 'fabric::FabricPersist::remove')
+    handlers = sorted({F.owner_fn(b.fn) for b in F.bodies.values() if b.focus and '::ClusterHandler>::' in b.fn and b.fn.lstrip('<').startswith('dm::clusters::') and '::decl::' in b.fn})
+    R.floor('cluster handler entry points', len(handlers), 100)
+    n = 0
+    for h in handlers:
+        mod = h.lstrip('<').split(' as ')[0].rsplit('::', 1)[0]     # dm::clusters::<module>
+        # stay inside the cluster's own module (plus the mutators / the store themselves): what the handler does, not what the stack does
+        seen = prims.reachable_fns(F, [h], depth=6, through_traits=False,
+                                   stop={f for f in F.bodies if not (f.lstrip('<').startswith(mod) or f == h or F.owner_fn(f) == h)})
+        muts = sorted(m for m in MUT if m in seen)
+        if not muts:
+            continue
+        n += 1
+        name = h.split('::')[-1]
+        if name in EXC and name != 'handle_commissioning_complete':
+            R.ok('P5', h, f'{name} mutates a fabric and persists it', f'exception: {EXC[name]}')
+            continue
+        stored = [c for c in STORE if c in seen]
+        R.expect('P5', h, f'{name} mutates a fabric ({", ".join(m.split("::")[-1] for m in muts)}) and persists it', bool(stored), f'reaches {[c.split("::")[-1] for c in stored]}',
+                 f'{name} can call {muts} but never reaches FabricPersist::store / ::remove: the change is acknowledged and lost at the next restart', f'{F.body(h).file}:{F.body(h).line}' if h in F.bodies else '')
+    R.floor('cluster handlers that mutate a fabric', n, 12)
+
